@@ -340,6 +340,8 @@ def run(res, ctx):
             for c_ in zp:
                 qcases.append({"cells": c18.build_sheet(c_["acts"], c_["style"], c_["layout"]), "sort": True})
                 st["questrade-zero-fxt-regression"] += 1
+            # regression (fix a3a1a71): a worksheet without any cell (a range of width zero)
+            qcases.append({"cells": [], "sort": True})
             if qexe is not None and qcases:
                 for qc, o in zip(qcases, run_harness(qexe, "qt_sheet", qcases)):
                     st["evaluations"] += 1
